@@ -25,7 +25,7 @@ SHARD_TIMEOUT = {"quick": 120, "thorough": 2400}
 
 SHAPES = ["close_local", "close_remote", "end_of_exec", "drop_local", "drop_remote", "error", "callback", "callback_drop",
           "remote_status", "nested_transfer", "exec_error", "reply_channel_both_dropped", "callback_then_local_close",
-          "exec_sets_callback_on_own_channel"]
+          "exec_sets_callback_on_own_channel", "both_callbacks_peer_drops_first"]
 
 
 def shards(tier, seed):
@@ -382,6 +382,28 @@ def one_cycle(res, lab, rng, shape, n):
         if got != [n, "end"]:
             res.violation("callback-endmarker-missing-after-local-close", f"cycle {n}: {got!r}")
         rc.waitclose(10)
+    elif shape == "both_callbacks_peer_drops_first":
+        # both ends listen by callback; the peer drops its object first (our end becomes send-only), we go on sending and
+        # finally drop our object too, without ever calling close()
+        from vlib import pairs
+
+        lgot, rgot = [], []
+        lc, rc = lab.pair_newchannel_local() if n % 2 else tuple(reversed(lab.pair_newchannel_remote()))
+        lc.setcallback(lgot.append, endmarker="end")
+        rc.setcallback(rgot.append, endmarker="end")
+        del rc
+        gc.collect()
+        pairs.wait_until(lambda: "end" in lgot, 15.0)
+        try:
+            lc.send(("still", n))
+        except OSError as e:
+            res.violation("send-on-sendonly-channel-refused", f"cycle {n}: {e}")
+        pairs.wait_until(lambda: ("still", n) in rgot, 15.0)
+        del lc
+        gc.collect()
+        pairs.wait_until(lambda: "end" in rgot, 15.0)
+        if lgot != ["end"] or rgot != [("still", n), "end"]:
+            res.violation("sendonly-conversation-transcript-wrong", f"cycle {n}: first dropper saw {rgot!r}, second dropper saw {lgot!r}")
     elif shape == "exec_sets_callback_on_own_channel":
         ch = gw.remote_exec("seen = []\nchannel.setcallback(seen.append, endmarker=None)\nchannel.send('ready')")
         assert ch.receive(10) == "ready"
